@@ -18,6 +18,7 @@ structure St where
   bootTaken : List Nat := []             -- frames the early allocator handed out, in order
   held : List Nat := []                  -- frames currently held by callers
   inited : Bool := false
+  bootOom : Bool := false                -- the early allocator has reported out-of-memory since the last init
   fails : List String := []
 
 def regions : List Nat → List Region
@@ -94,7 +95,7 @@ def step (st : St) (opS obsS : String) : St × String := Id.run do
   | ["binit", ks, ke] =>
     let b := bootInit (nat! ks) (nat! ke)
     st := { st with boot := b, kFrames := (nat! ks / 4096, (nat! ke + 4095) / 4096 - 1), bootTaken := [], held := [],
-                    inited := false }
+                    inited := false, bootOom := false }
     return (st, s!"{b.kStart} {b.kEnd}")
   | ["balloc"] =>
     let (b, r) := bootAlloc st.map st.boot
@@ -102,10 +103,11 @@ def step (st : St) (opS obsS : String) : St × String := Id.run do
     -- oracle C02 on the implementation's frame
     match obs with
     | fS :: _ =>
-      if fS = "-1" then st := { st with stats := st.stats.bump "boot_oom" }
+      if fS = "-1" then st := { st with stats := st.stats.bump "boot_oom", bootOom := true }
       else
         let f := nat! fS
         st := { st with stats := st.stats.bump "boot_ok" }
+        if st.bootOom then st := fail st "C02" "boot-oom-is-final" opS obsS
         if !availFrame st.map f then st := fail st "C02" "boot-frame-in-available-ram" opS obsS
         if inKernel st.kFrames f then st := fail st "C02" "boot-frame-not-kernel" opS obsS
         match st.bootTaken.getLast? with
